@@ -117,6 +117,55 @@ func safetyFamily(tier string, amevs []int64) []*Job {
 		jobs = append(jobs, job(scen(fmt.Sprintf("B3-missing-tx-n%d-N4-%s", bk, an), 4, withAMEV(a), withMissing(bk, 101), withK(2)), per))
 		jobs = append(jobs, job(scen(fmt.Sprintf("B4-badtx-n%d-N4-%s", bk, an), 4, withAMEV(a), withBadTx(bk, 101), withK(2)), per))
 	}
+	// failing ProcessPreBlock (first call per node fails), anti-MEV on
+	for _, a := range amevs {
+		if a >= 0 {
+			fp := scen("B11-preblock-fails-once-N4-"+amevName(a), 4, withAMEV(a), withK(2))
+			fp.FailPre = 1
+			jobs = append(jobs, job(fp, per))
+		}
+	}
+	// validator counts that are not 3F+1 with a Byzantine primary (quorum arithmetic matters here)
+	for _, n := range []int{5, 6} {
+		b := primaryAt(start+1, 0, n)
+		sc := scen(fmt.Sprintf("B7-byz-primary%d-N%d-amev-off", b, n), n, withKind(b, kByz), withK(2))
+		sc.Dev.Dup, sc.Dev.Stale, sc.Dev.Perm = false, false, false
+		jobs = append(jobs, job(sc, per))
+	}
+	// B12: the Byzantine primary equivocates as part of the base: proposal A to one half, B to the other,
+	// valid (pre)commits for both to everybody
+	for _, n := range []int{4, 5, 6, 7} {
+		for _, a := range amevs {
+			if a > 0 || (n > 5 && a >= 0) {
+				continue
+			}
+			b := primaryAt(start+1, 0, n)
+			var m1, m2, all int
+			cnt := 0
+			for i := 0; i < n; i++ {
+				if i == b {
+					continue
+				}
+				all |= 1 << i
+				if cnt < (n-1)/2 {
+					m1 |= 1 << i
+				} else {
+					m2 |= 1 << i
+				}
+				cnt++
+			}
+			sc := scen(fmt.Sprintf("B12-equivocating-primary%d-N%d-%s", b, n, amevName(a)), n, withAMEV(a), withKind(b, kByz), withK(2))
+			sc.Dev.Dup, sc.Dev.Stale, sc.Dev.Perm = false, false, false
+			if n > 4 {
+				sc.K = 1
+			}
+			sc.ByzScript = []ByzStep{{"proposal A", 0, m1}, {"proposal B", 0, m2}, {"commit for proposal A", 0, all}, {"commit for proposal B", 0, all}}
+			if a >= 0 {
+				sc.ByzScript = append(sc.ByzScript, ByzStep{"precommit for proposal A", 0, all}, ByzStep{"precommit for proposal B", 0, all})
+			}
+			jobs = append(jobs, job(sc, per))
+		}
+	}
 	// other validator counts, fault-free
 	for _, n := range []int{1, 2, 3, 5, 6, 7} {
 		k := 2
@@ -179,13 +228,13 @@ func needKinds(kinds ...string) func(*Aggregate) string {
 
 func init() {
 	e1Check("C02", "E1 safety-mode exploration (<=k deviations around each base, Byzantine menu incl. early/garbage/other-view commits and pre-commits); oracle at every ProcessBlock/ProcessPreBlock: >=M current-view (pre)commits whose signatures verify against exactly that block (re-evaluated by the oracle), block extends the ledger tip, equals the primary's proposal",
-		func(tier string) []*Job { return safetyFamily(tier, []int64{-1, 0}) }, needKinds("Commit", "PreCommit"))
+		func(tier string) []*Job { return append(safetyFamily(tier, []int64{-1, 0}), e2Family(tier, []int64{-1, 0})...) }, needKinds("Commit", "PreCommit"))
 	e1Check("C03", "E1 safety-mode exploration; oracle on every honest node's complete Broadcast history per height: <=1 proposal / response per view, <=1 commit and pre-commit per height (also inside recovery messages), no view move or ChangeView after own (pre)commit, own message views non-decreasing",
-		func(tier string) []*Job { return safetyFamily(tier, []int64{-1, 0}) }, needKinds("Commit", "PreCommit", "CV", "RecMsg"))
+		func(tier string) []*Job { return append(safetyFamily(tier, []int64{-1, 0}), e2Family(tier, []int64{-1, 0})...) }, needKinds("Commit", "PreCommit", "CV", "RecMsg"))
 	e1Check("C04", "E1 safety-mode exploration; oracle at each Broadcast / view increase, evaluated on the exported Context at that instant: response only for the designated primary's verified complete proposal naming its hash; (pre)commit only with proposal, all transactions and >=M preparations naming it; view v entered only with change views >=v from >=M validators (monitor's own record)",
-		func(tier string) []*Job { return safetyFamily(tier, []int64{-1, 0}) }, needKinds("PResp", "Commit", "CV"))
+		func(tier string) []*Job { return append(safetyFamily(tier, []int64{-1, 0}), e2Family(tier, []int64{-1, 0})...) }, needKinds("PResp", "Commit", "CV"))
 	e1Check("C07", "E1 safety-mode exploration with anti-MEV on / switching on / off; oracle on per-node callback order: commit only after own pre-commit, successful ProcessPreBlock (<=1 per height) and M current-view pre-commits; block built/signed only after that; below the enabling height no pre-commit, pre-block or ProcessPreBlock",
-		func(tier string) []*Job { return safetyFamily(tier, []int64{0, 5, -1}) }, needKinds("PreCommit", "Commit"))
+		func(tier string) []*Job { return append(safetyFamily(tier, []int64{0, 5, -1}), e2Family(tier, []int64{0, 6})...) }, needKinds("PreCommit", "Commit"))
 	e1Check("C10", "E1 safety-mode exploration; oracle after every API call on an undecided validator: injected timer armed for exactly (BlockIndex, ViewNumber), non-negative duration, not consumed-and-not-rearmed",
-		func(tier string) []*Job { return safetyFamily(tier, []int64{-1, 0}) }, needKinds("CV", "RecReq"))
+		func(tier string) []*Job { return append(safetyFamily(tier, []int64{-1, 0}), e2Family(tier, []int64{-1, 0})...) }, needKinds("CV", "RecReq"))
 }
